@@ -62,7 +62,7 @@ Needs(shape) ==
     [] shape = "list_empty" -> "list"
     [] shape = "nil_sub" -> "sub"
     [] shape = "enum_oob" -> "enum"
-    [] shape = "neg_ints" -> "int"
+    [] shape \in {"neg_ints", "max_ints", "min_ints"} -> "int"
     [] shape \in {"neg_from", "huge_from"} -> "from"
     [] shape \in {"island_zero", "island_huge"} -> "island"
     [] OTHER -> ""          \* "valid", "empty_req"
@@ -129,11 +129,16 @@ Body ==
   /\ vigils' = vigils - 1 /\ pc' = "unwound"
   /\ UNCHANGED <<cur, locked>>
 
+\* a request that (de)registers settings for a pattern is followed by ordinary requests to a swamp that matches
+\* the pattern (the driver's probe): the registered values must never bring the server down at that point
 Unwind ==
   /\ pc = "unwound"
   /\ locked' = IF cur.rpc.stream THEN locked ELSE locked - 1
   /\ pc' = "replied"
-  /\ UNCHANGED <<cur, vigils, store, out, alive>>
+  /\ IF "pattern" \in cur.rpc.feats /\ Pair \in Dead /\ out # "dead"
+       THEN alive' = FALSE /\ out' = "dead"
+       ELSE UNCHANGED <<out, alive>>
+  /\ UNCHANGED <<cur, vigils, store>>
 
 \* graceful stop waits for the system lock and the vigils
 Stop ==
